@@ -772,6 +772,11 @@ CONST_WITNESS = {"kind": "evolution", "spec": {
     "dims": [2, 2], "seed": 9, "drift": {"targets": [0, 1]}, "dm": False,
     "chans": [{"targets": [0], "tlist": [0.0, 0.35, 0.8, 1.3], "coeff": [0.9, -1.3, 0.6]},
               {"targets": [1], "tlist": [0.0, 0.25, 0.5], "coeff": True}]}}
+CONST_WITNESS_2 = {"kind": "evolution", "spec": {
+    "dims": [2], "seed": 10, "drift": {"targets": [0]}, "dm": True,
+    "chans": [{"targets": [0], "tlist": [0.4, 0.9], "coeff": False},
+              {"targets": [0], "tlist": [0.0, 0.35, 0.8, 1.3], "coeff": [0.9, -1.3, 0.6]},
+              {"targets": [0], "tlist": None, "coeff": True}]}}
 RUNSTATE_WITNESS = {"kind": "run_state", "spec": {
     "dims": [2], "seed": 1, "drift": None, "dm": False,
     "chans": [{"targets": [0], "tlist": [0.0, 1.0], "coeff": [0.5]}]}}
@@ -1487,7 +1492,7 @@ class C14(PropertyCheck):
         f, d = self.oracle_replay(ctx, RUNSTATE_WITNESS)
         if f:
             yield RUNSTATE_WITNESS, d
-        for w in (ROUNDING_WITNESS, ROUNDING_WITNESS_2, CONST_WITNESS):
+        for w in (ROUNDING_WITNESS, ROUNDING_WITNESS_2, CONST_WITNESS, CONST_WITNESS_2):
             f, d = self.oracle_replay(ctx, w)
             if f:
                 yield w, d
@@ -1511,7 +1516,7 @@ class C14(PropertyCheck):
         t0 = time.time()
         rng = ctx.rng
         # systematic first: grids equal up to rounding (both orders of the two channels), constant channels of every shape
-        first = [ROUNDING_WITNESS, ROUNDING_WITNESS_2, CONST_WITNESS]
+        first = [ROUNDING_WITNESS, ROUNDING_WITNESS_2, CONST_WITNESS, CONST_WITNESS_2]
         sw = dict(ROUNDING_WITNESS["spec"])
         sw["chans"] = [dict(sw["chans"][1], targets=[0]), dict(sw["chans"][0], targets=[1])]
         first.append({"kind": "evolution", "spec": sw})
